@@ -10,6 +10,8 @@ CHECKS = {
          "Bounded: generated resources (schema-driven from google/fhir descriptors, all 146 types in the thorough tier) and their own paths; trusted: TLC, FPNav text, google/fhir jsonformat (tree rendering), the annotator (self-checked: every JSON member has a node).", "DESIGN.md section 6 C02"),
  "C07": ("TLC checks EmptyPropagates on the abstract machine (every non-aggregate function FPEval models maps the empty focus to the empty result; comparison and equality with an empty operand are empty; classification tables well formed; two mutant twins must fail) and generates the exhaustive case set: every operator x operand position and every name of the IMPLEMENTATION's base and experimental function tables (read at run time through funcs.Clone()) x every accepted arity, with the input empty and with every single-value argument empty, each supplied as {} literal, absent path and empty variable. Every case runs through Compile/Evaluate and is judged by TLC against the specification's permitted sets.",
          "Exhaustive over the space the quantifier names for the functions in the implementation's table at run time; a function unknown to the specification is still exercised (empty or error permitted, never a value or a crash). Trusted: TLC, C07/FPEval text, harness projection.", "DESIGN.md section 6 C07"),
+ "C12": ("TLC checks the type lattice of FPTypes over the type table read from the google/fhir descriptors (reflexive, transitive, every type reaches Element or Resource in at most 5 steps, primitives specialise, namespaces disjoint, FHIR-first resolution; two mutant twins must fail) and generates the cases: for every generated resource the first node of every message type and choice-typed nodes x {is, as} x {declared type, ancestors, sibling types, other letter case, Element, BackboneElement, Resource, DomainResource, System counterpart} x namespaces {none, FHIR, System, unknown}, and 10 System values x every FHIR/System type name. Every case runs through Compile/Evaluate; TLC judges truth value, identity of the item returned by `as`, and Compile rejection of unknown names/namespaces.",
+         "Bounded: generated resources as in C02 (all 146 types in the thorough tier); `X is BackboneElement` for top-level data types, xhtml and System.Any are left open as the property does not address them. Trusted: TLC, FPTypes text, the descriptor annotations, harness projection.", "DESIGN.md section 6 C12"),
  "C10": ("The interpreter's abstract machine (FPEval: big-step evaluator over the annotated tree, with where/select/exists/all/empty/count/first/last/tail/skip/take/indexer/distinct/isDistinct/exclude/intersect/extension/not/iif/allTrue... and criteria evaluated per item) is model-checked by TLC for the collection algebra at every focus of the pool (first = [0] = take(1), tail = skip(1), last = skip(count-1), take(n) ++ skip(n) = c for all n, exists(p) = where(p).exists(), all(p), distinct/isDistinct, exclude, extension(u) = extension.where(url=u); four mutant twins must fail). TLC emits every case; each is executed by the real Compile/Evaluate and judged by TLC: exact item identity and order for where/select/subsetting/exclude, acceptance predicates (one representative per equality class, no null item) for distinct/intersect.",
          "Bounded: 13 foci on model resources MR1/MR4 and environment collections, 16 criteria, 8 projections, n in [-3, count+3] and int32 boundaries, 9 overlap collections; cases whose criteria outcome the properties leave open are counted as unconstrained in the evidence. Trusted: TLC, FPEval/FPNav/FPCompare text, the harness projection.", "DESIGN.md section 6 C10"),
  "C05": ("TLC checks symmetry, negation, mirror, trichotomy, transitivity, congruence and anchor laws of the reference comparison model (FPCompare) over the whole value pool and emits every ordered pair x six operators (literal forms, plus rotating environment-variable and FHIR-element forms) and the collection variants; every case is executed through Compile/Evaluate and judged by TLC against the model's permitted-answer sets; each operand evaluated alone must denote the pool value.",
